@@ -356,6 +356,21 @@ def judge_C04(w):
     return None
 
 
+def judge_C04_cutdep(w):
+    try:
+        a = p1_obs(p1_run(w["chunks_ref"])[1])
+        b = p1_obs(p1_run(w["chunks"])[1])
+    except Exception as e:
+        return {"signature": "exception:" + exc_signature(e), "detail": repr(e)}
+    if a != b:
+        return {"signature": "readout-validity-depends-on-chunking", "detail": f"one call: {a}; chunks of sizes {[len(c) // 2 for c in w['chunks']]}: {b}"}
+    return None
+
+
+def observe_C04_cutdep(w):
+    return p1_obs(p1_run(w["chunks"])[1])
+
+
 def judge_p1_expect(w):
     """C05 / C16-P1: w["expect"] = readouts (hex) that must be delivered byte-identical and valid, in order; exact => nothing else."""
     try:
@@ -956,6 +971,54 @@ def c12_lemma_run(w):
     finally:
         AD.AutoDecoder.payload_decoder_functions = orig
         dlde.decode_p1_readout = orig_p1
+
+
+def c12_history_run(w):
+    import construct
+    from han import autodecoder as AD
+    orig = list(AD.AutoDecoder.payload_decoder_functions)
+    names = ["D0", "D1", "D2"]
+
+    def mk(i):
+        def dec(payload):
+            p = "A" if payload == b"A-payload" else "B"
+            if w["acc"][f"{i}{p}"]:
+                return {"decoder": i, "payload": p}
+            raise (ValueError("no") if w["verr"][i] else construct.ConstructError("no"))
+        return dec
+    try:
+        AD.AutoDecoder.payload_decoder_functions = [(names[i], mk(i)) for i in range(3)]
+        d = AD.AutoDecoder()
+        out = []
+        for p in w["seq"]:
+            r = d.decode_message_payload(b"A-payload" if p == "A" else b"B-payload")
+            out.append([r, d.previous_success_decoder])
+        return out, names
+    finally:
+        AD.AutoDecoder.payload_decoder_functions = orig
+
+
+def observe_C12_history(w):
+    return c12_history_run(w)[0]
+
+
+def judge_C12_history(w):
+    try:
+        out, names = c12_history_run(w)
+    except Exception as e:
+        return {"signature": "exception:" + exc_signature(e), "detail": repr(e)}
+    prev = None
+    for k, (p, (r, name)) in enumerate(zip(w["seq"], out)):
+        start = prev or 0
+        first = next((i for i in [(start + j) % 3 for j in range(3)] if w["acc"][f"{i}{p}"]), None)
+        if first is None:
+            ok = r is None and name == (None if prev is None else names[prev])
+        else:
+            ok = r == {"decoder": first, "payload": p} and name == names[first]
+            prev = first
+        if not ok:
+            return {"signature": "selection-history", "detail": f"call {k} of {''.join(w['seq'])} with accept={w['acc']}: result {r}, remembered {name}"}
+    return None
 
 
 def observe_C12_lemma(w):
